@@ -320,7 +320,14 @@ impl<'a> Gen<'a> {
                 Some(match self.rng.below(8) {
                     0 => {
                         let f = *self.rng.pick(&["TO_TSQUERY", "TO_TSVECTOR", "PHRASETO_TSQUERY", "PLAINTO_TSQUERY", "WEBSEARCH_TO_TSQUERY"]);
-                        X::Func(f, vec![t(self)])
+                        if self.rng.coin() {
+                            // with a text-search configuration (an OID, bound as an unsigned value) in front
+                            self.tag += 1;
+                            let cfg = X::Val(Value::Unsigned(Some(self.tag as u32)));
+                            X::Func(f, vec![cfg, t(self)])
+                        } else {
+                            X::Func(f, vec![t(self)])
+                        }
                     }
                     1 => {
                         let (v, q) = (X::Func("TO_TSVECTOR", vec![t(self)]), X::Func("TO_TSQUERY", vec![self.text_val()]));
@@ -922,7 +929,7 @@ impl<'a> Gen<'a> {
                 ..Default::default()
             };
             w.recursive = true;
-            w.ctes.push(Cte { name: name.clone(), cols: vec!["n".into()], body: Box::new(CteBody::Sel(base)), materialized: None });
+            w.ctes.push(Cte { name: name.clone(), cols: vec!["n".into()], infer: false, body: Box::new(CteBody::Sel(base)), materialized: None });
             self.ctes.push(Rel { name, cols: vec![("n".into(), K::I)], key: vec!["n".into()] });
             if self.cfg.is(Dialect::Postgres) && !self.cfg.exec && self.rng.chance(1, 3) {
                 w.search = Some((self.rng.coin(), "n".into(), "ord".into()));
@@ -943,7 +950,19 @@ impl<'a> Gen<'a> {
                 } else {
                     None
                 };
-                w.ctes.push(Cte { name: name.clone(), cols, body: Box::new(CteBody::Sel(q)), materialized });
+                let mut q = q;
+                let mut rel_cols = rel_cols;
+                let infer = !named_cols && self.rng.chance(1, 3);
+                if infer && q.items.len() >= 2 && q.unions.is_empty() && self.rng.coin() {
+                    // a select list that is only partly nameable: the last item loses its alias (and is not
+                    // visible under a name outside)
+                    let last = q.items.len() - 1;
+                    if !matches!(q.items[last].expr, X::Col(_) | X::QCol(..)) && q.items[last].window.is_none() {
+                        q.items[last].alias = None;
+                        rel_cols.pop();
+                    }
+                }
+                w.ctes.push(Cte { name: name.clone(), cols, infer, body: Box::new(CteBody::Sel(q)), materialized });
                 self.ctes.push(Rel { name, cols: rel_cols, key: vec![] });
             }
         }
